@@ -27,3 +27,37 @@ func VerifHarness_C16_LoaderTags() {
 		verifAssert("no-build-flag-without-tags", len(cfg.BuildFlags) == 0)
 	}
 }
+
+// VerifHarness_C16_LoaderTagsMany: however many packages a run names (1, 2, 33, 70 patterns) and in however many
+// calls the loader asks for them, every call carries the build tag and the working directory, and every pattern
+// is asked for.
+func VerifHarness_C16_LoaderTagsMany() {
+	counts := []int{1, 2, 33, 70}
+	n := counts[nondetChoice("patterns", len(counts))]
+	tagged := nondetBool("tags-set")
+	tags := ""
+	if tagged {
+		tags = "goverter,gen"
+	}
+	paths := make([]string, n)
+	for i := range paths {
+		paths[i] = "pattern=example.org/p" + string(rune('a'+i/26)) + string(rune('a'+i%26))
+	}
+	_, err := New("/work", tags, paths)
+	verifAssert("load-ok", err == nil)
+	calls := verifEffectCount("golang.org/x/tools/go/packages.Load")
+	verifAssert("loaded", calls >= 1)
+	seen := 0
+	for c := 0; c < calls; c++ {
+		cfg := verifEffectArg("golang.org/x/tools/go/packages.Load", c, 0).(*packages.Config)
+		verifAssert("working-dir-passed-on-every-call", cfg.Dir == "/work")
+		if tagged {
+			verifAssert("tags-passed-on-every-call", len(cfg.BuildFlags) == 2 && cfg.BuildFlags[0] == "-tags" && cfg.BuildFlags[1] == tags)
+		} else {
+			verifAssert("no-build-flag-without-tags", len(cfg.BuildFlags) == 0)
+		}
+		asked, _ := verifEffectArg("golang.org/x/tools/go/packages.Load", c, 1).([]string)
+		seen += len(asked)
+	}
+	verifAssert("every-pattern-asked-for", seen >= n)
+}
